@@ -40,6 +40,7 @@ type c08PreFile struct {
 	UpdatedAge time.Duration `json:"updated_age_ns,omitempty"`
 	NoCreated  bool          `json:"no_created,omitempty"`
 	NoUpdated  bool          `json:"no_updated,omitempty"`
+	MtimeAge   time.Duration `json:"mtime_age_ns,omitempty"` // the file's modification time is set this long before the start
 }
 
 type c08Thread struct {
@@ -172,8 +173,12 @@ func c08WritePre(fs *certmagic.FileStorage, name string, pre c08PreFile, base ti
 	if err := os.MkdirAll(filepath.Dir(fn), 0o700); err != nil {
 		return rel, err
 	}
+	mt := base.Add(-pre.MtimeAge)
 	if pre.Kind == "dir" { // something that is not a regular file sits at the lock file's path
-		return rel, os.Mkdir(fn, 0o755)
+		if err := os.Mkdir(fn, 0o755); err != nil {
+			return rel, err
+		}
+		return rel, os.Chtimes(fn, mt, mt)
 	}
 	var content string
 	switch pre.Kind {
@@ -200,7 +205,10 @@ func c08WritePre(fs *certmagic.FileStorage, name string, pre c08PreFile, base ti
 		b, _ := json.Marshal(m)
 		content = string(b) + "\n"
 	}
-	return rel, os.WriteFile(fn, []byte(content), 0o644)
+	if err := os.WriteFile(fn, []byte(content), 0o644); err != nil {
+		return rel, err
+	}
+	return rel, os.Chtimes(fn, mt, mt)
 }
 
 // c08Run executes one scenario against the real code.
@@ -675,9 +683,9 @@ func c08Emit(w *emit.Writer, res *c08Result) {
 		case "absent":
 			e.Int(0)
 		case "empty", "ws":
-			e.Int(1)
+			e.Int(1).Z(-int64(sc.Pre.MtimeAge))
 		case "garbage", "truncated", "dir":
-			e.Int(2)
+			e.Int(2).Z(-int64(sc.Pre.MtimeAge))
 		case "meta":
 			e.Int(3)
 			if sc.Pre.NoCreated {
@@ -690,6 +698,7 @@ func c08Emit(w *emit.Writer, res *c08Result) {
 			} else {
 				e.Bool(true).Z(res.PreAbs[1])
 			}
+			e.Z(-int64(sc.Pre.MtimeAge))
 		}
 		e.Len(len(evs))
 		for _, x := range evs {
@@ -814,8 +823,9 @@ func c08Table(r *rand.Rand, tier string) []c08Scenario {
 		{"zero-updated-new-created", c08PreFile{Kind: "meta", CreatedAge: c08ms(1000), NoUpdated: true}},
 		{"no-times", c08PreFile{Kind: "meta", NoCreated: true, NoUpdated: true}},
 		{"old-created-fresh-updated", c08PreFile{Kind: "meta", CreatedAge: c08ms(3600000), UpdatedAge: c08ms(4000)}},
-		{"empty", c08PreFile{Kind: "empty"}},
-		{"whitespace", c08PreFile{Kind: "ws"}},
+		{"empty-old", c08PreFile{Kind: "empty", MtimeAge: c08ms(30000)}},
+		{"empty-just-modified", c08PreFile{Kind: "empty"}},
+		{"whitespace-old", c08PreFile{Kind: "ws", MtimeAge: c08ms(11500)}},
 		{"truncated-json", c08PreFile{Kind: "truncated"}},
 		{"garbage", c08PreFile{Kind: "garbage"}},
 		{"directory-at-lock-path", c08PreFile{Kind: "dir"}},
@@ -831,7 +841,10 @@ func c08Table(r *rand.Rand, tier string) []c08Scenario {
 		}
 	}
 	// shorter deadlines for the files that make Lock wait
-	add("empty", c08PreFile{Kind: "empty"}, ctxk{"deadline1300", c08ms(1300)})
+	add("empty-old", c08PreFile{Kind: "empty", MtimeAge: c08ms(30000)}, ctxk{"deadline1300", c08ms(1300)})
+	// an empty file modified 6.9 s ago: given up only when that becomes more than 10 s (3.15 s into the scenario)
+	out = append(out, c08Scenario{Name: "table/empty-modified-6.9s-ago/deadline4500", Class: "decision-table", Pre: c08PreFile{Kind: "empty", MtimeAge: c08ms(6855)},
+		Threads: []c08Thread{{Tid: 0, Pid: 0, Name: "Lock Name+1", StartAt: c08ms(20), HoldFor: -1, CancelAt: c08ms(4500)}}, Horizon: c08ms(5000)})
 	add("fresh", c08PreFile{Kind: "meta", CreatedAge: c08ms(100), UpdatedAge: c08ms(100)}, ctxk{"deadline400", c08ms(400)})
 	// random ages around the staleness threshold, kept away from the poll instants
 	n := 10
@@ -943,7 +956,7 @@ func c08Scenarios(tier string, r *rand.Rand) []c08Scenario {
 		{Name: "long-hold-after-stale-takeover", Class: "stale-prefile", Pre: c08PreFile{Kind: "meta", CreatedAge: c08ms(90000), UpdatedAge: c08ms(20000)},
 			Threads: []c08Thread{{Tid: 0, Name: n, StartAt: c08ms(200), HoldFor: c08ms(12500), CancelAt: long}, {Tid: 1, Pid: 1, Name: n, StartAt: c08ms(900), HoldFor: c08ms(200), CancelAt: long}},
 			Horizon: c08ms(15000)},
-		{Name: "long-hold-after-empty-takeover", Class: "empty-prefile", Pre: c08PreFile{Kind: "empty"},
+		{Name: "long-hold-after-empty-takeover", Class: "empty-prefile", Pre: c08PreFile{Kind: "empty", MtimeAge: c08ms(60000)},
 			Threads: []c08Thread{{Tid: 0, Name: n, StartAt: c08ms(200), HoldFor: c08ms(12500), CancelAt: long}, {Tid: 1, Name: n, StartAt: c08ms(3100), HoldFor: c08ms(200), CancelAt: long}},
 			Horizon: c08ms(16500)},
 		// the documented race after a crash: waiter 1 (slow unlink: 600 ms) judges the dead holder's file
@@ -952,7 +965,7 @@ func c08Scenarios(tier string, r *rand.Rand) []c08Scenario {
 		{Name: "stale-race-after-crash", Class: "stale-race", Pre: c08PreFile{Kind: "meta", CreatedAge: c08ms(90000), UpdatedAge: c08ms(40000)},
 			Threads: []c08Thread{{Tid: 0, Pid: 1, Name: n, StartAt: c08ms(500), HoldFor: c08ms(2000), CancelAt: long}, {Tid: 1, Pid: 2, Name: n, StartAt: c08ms(250), HoldFor: c08ms(500), CancelAt: long}},
 			SlowRemove: map[int]time.Duration{2: c08ms(600)}, Horizon: c08ms(4500)},
-		{Name: "empty-file-then-release", Class: "empty-prefile", Pre: c08PreFile{Kind: "empty"},
+		{Name: "empty-file-then-release", Class: "empty-prefile", Pre: c08PreFile{Kind: "empty", MtimeAge: c08ms(60000)},
 			Threads: []c08Thread{{Tid: 0, Name: n, StartAt: c08ms(100), HoldFor: c08ms(1000), CancelAt: long}, {Tid: 1, Name: n, StartAt: c08ms(300), HoldFor: c08ms(100), CancelAt: long}},
 			Horizon: c08ms(5000)},
 	}
@@ -965,11 +978,11 @@ func c08Scenarios(tier string, r *rand.Rand) []c08Scenario {
 	}
 	if _, err := exec.LookPath("strace"); err == nil {
 		// storage slower still: one truncate -> write gap of 2.3 s is longer than the eight empty-read
-		// retries (8 x 250 ms): the waiter gives up on the live holder's empty file within ONE gap; the
-		// emptyCount fix cannot help here (known finding C08-write-gap-longer-than-retries)
+		// retries (8 x 250 ms). Before the modification-time guard the waiter gave up on the live holder's
+		// empty file within that ONE gap (finding C08-write-gap-longer-than-retries, fixed); now it keeps waiting
 		scs = append(scs, c08Scenario{Name: "slow-truncate-gap-longer-than-retries", Class: "slow-storage-long-gap", Gap: c08ms(2300), Tol: c08ms(1200),
-			Threads: []c08Thread{{Tid: 0, Pid: 1, Name: n, StartAt: c08ms(250), HoldFor: c08ms(8500)}, {Tid: 1, Name: n, StartAt: c08ms(500), HoldFor: c08ms(200), CancelAt: long}},
-			Horizon: c08ms(11000)})
+			Threads: []c08Thread{{Tid: 0, Pid: 1, Name: n, StartAt: c08ms(250), HoldFor: c08ms(9000)}, {Tid: 1, Name: n, StartAt: c08ms(500), HoldFor: c08ms(200), CancelAt: long}},
+			Horizon: c08ms(12000)})
 	}
 	if tier == "thorough" {
 		// holder killed at a random moment (kept away from its heartbeat instants); the waiter's
